@@ -32,11 +32,15 @@ def h_prog(e, **kw):
     return cachestep.h_prog_dcache(e, **kw)
 
 
-HARNESSES = {"step": h_step, "history": h_history, "prog": h_prog}
+def h_deep(e, **kw):
+    return cachestep.h_deep(e, **kw)
+
+
+HARNESSES = {"step": h_step, "history": h_history, "prog": h_prog, "deep": h_deep}
 
 
 def jobs(tier, seed):
-    return cachestep.step_jobs(tier, {"C12"}, "checks.c12") + cachestep.history_jobs(tier, {"C12"}, "checks.c12") + extra_jobs(tier, seed)
+    return cachestep.step_jobs(tier, {"C12"}, "checks.c12") + cachestep.history_jobs(tier, {"C12"}, "checks.c12") + cachestep.deep_jobs(tier, {"C12"}, "checks.c12") + extra_jobs(tier, seed)
 
 
 def extra_jobs(tier, seed):
